@@ -45,6 +45,7 @@ type Interp struct {
 	MaxSteps int
 	MaxDepth int
 	Monitored map[string]bool // event kinds that are part of the abstract state (default: "write")
+	WidenAfter int // arrivals at a loop header that keep concrete loop-carried values (unrolling) before widening starts
 	MaxLoop  int // visits of one loop header per trace before the partition is cut
 
 	decisions []int
@@ -69,7 +70,7 @@ type aiAbort struct {
 }
 
 func NewInterp(p *Prog) *Interp {
-	in := &Interp{P: p, Models: map[string]Model{}, NoInline: map[string]bool{}, MaxSteps: 20000, MaxDepth: 8, MaxLoop: 6}
+	in := &Interp{P: p, Models: map[string]Model{}, NoInline: map[string]bool{}, MaxSteps: 40000, MaxDepth: 8, MaxLoop: 10, WidenAfter: 1}
 	in.constGlob = constGlobals(p)
 	return in
 }
@@ -425,6 +426,9 @@ func (in *Interp) callFn(fn *ssa.Function, args []AVal, bind []AVal) AVal {
 			// explored from there).
 			loopID := fmt.Sprintf("φ:%s:%d", fnName(fn), b.Index)
 			old := fr.snap[b]
+			if old != nil && fr.visits[b] <= in.WidenAfter {
+				old = nil // still unrolling concretely
+			}
 			if old != nil {
 				for i, ph := range phis {
 					if keyOf(phiVals[i]) != old.phis[i] {
@@ -438,8 +442,8 @@ func (in *Interp) callFn(fn *ssa.Function, args []AVal, bind []AVal) AVal {
 				}
 			}
 			sn := &loopSnap{nEvents: in.monitoredEvents()}
-			if old != nil {
-				sn.allocN = old.allocN
+			if prevSnap := fr.snap[b]; prevSnap != nil {
+				sn.allocN = prevSnap.allocN
 			} else {
 				sn.allocN = in.allocN
 			}
